@@ -2,6 +2,8 @@ package route
 
 import (
 	"strings"
+
+	"github.com/gobwas/glob"
 )
 
 // matcher determines whether a host/path matches a route
@@ -22,7 +24,21 @@ func prefixMatcher(uri string, r *Route) bool {
 
 // globMatcher matches path to the routes' path using gobwas/glob.
 func globMatcher(uri string, r *Route) bool {
-	return r.Glob.Match(uri)
+	return globMatch(r.Glob, uri)
+}
+
+// globMatch matches s against a compiled pattern. gobwas/glob compiles
+// some patterns which make Match panic later, e.g. "a{" with a brace that
+// is never closed on a string which ends in "a". Such a pattern comes with
+// the route configuration and must not take the request, or on a TCP
+// listener the process, down: it matches nothing.
+func globMatch(g glob.Glob, s string) (ok bool) {
+	defer func() {
+		if recover() != nil {
+			ok = false
+		}
+	}()
+	return g.Match(s)
 }
 
 // iPrefixMatcher matches path to the routes' path ignoring case
